@@ -148,6 +148,9 @@ var textCorpus = []string{
 }
 var yamlCorpus = []string{
 	validYAML,
+	"---\n" + validYAML + "---\n- ~\n- values: [\"1\"]\n...\n",
+	"- &a {chord: {degree: \"1\", name: \"\"}, values: [\"1\"]}\n- *a\n- <<: *a\n  bpm: 90\n- values: &v [\"1\", \"1/2\"]\n- values: *v\n  meta: &m {txt: x}\n- {values: *v, meta: *m}\n",
+	"%YAML 1.2\n---\n- chord: {degree: \"1\", name: \"\"}\n  values:\n  - \"1\"\n  - \"2\"\n--- \n- ~\n",
 	"- chord:\n    degree: \"b3\"\n    name: m7\n    base: \"5\"\n  values: [\"1\", \"1/2\"]\n  bpm: 120\n  velocity: ff\n  meter: \"3/4\"\n  key: Ebm\n  meta:\n    txt: \"hello\"\n    lic: \"é\"\n- values: [2]\n",
 	"- {chord: {degree: \"#4\", name: MajorNinthAlias1}, values: [\"7/960\"], key: \"C#\"}\n- {values: [\"1/3\", \"1/3\", \"1/3\"], meta: {mrk: x}}\n",
 }
